@@ -34,14 +34,14 @@ CHECKS["C02"] = dict(
 _UDP_GEN = ("rapid-generated datagram histories through the real PacketHandler on a real dual-stack UDP socket: 1..7 client sockets on 127.x.y.z/::1 "
             "(shared IPs, distinct ports), 1..4 scripted targets on IPv4 and IPv6 loopback, key lists with all ciphers and duplicated material; operations: "
             "send (valid / truncated / bit-flipped / random / bad address type / short address / unsendable port 0 / a destination the world's policy refuses; any key of the universe), reply from a contacted target, "
-            "datagram from a never-contacted sender, expiry. Every operation's effect is awaited (fence datagram for must-not-happen) before the next. ")
+            "datagram from a never-contacted sender (replies up to 65507 bytes: beyond what one relayed datagram can carry delivery is optional, but never partial), expiry, key-list update under the running loop (with a former client coming back with a dropped key). Every operation's effect is awaited (fence datagram for must-not-happen) before the next. ")
 
 CHECKS["C03"] = dict(
     level="exploration",
     rule=_UDP_GEN + "Non-trivial = an association opened by a key that is not first in a list of >=2 keys, or an invalid datagram on a live association, "
          "or an IPv6 target/sender, or a reply from a never-contacted sender, or payload >=1472 bytes. Distinct = canonical case JSON.",
     assumptions=["loopback UDP: no loss/reordering in practice; a lost expected datagram is retried once before it counts", "AEAD strength assumed"],
-    units=[unit("props", ["UDP"], "C03")],
+    units=[unit("props", ["UDP", "UDPExpiry"], "C03")],
 )
 CHECKS["C04"] = dict(
     level="exploration",
